@@ -678,6 +678,17 @@ func genReconn(r *Rng, prop string) *Scenario {
 		sc.Script = []Out{{Conn: 2, AfterConnack: true, Glue: r.chance(0.5), DelayUs: r.between(0, 20), Kind: "pkt", Pkt: &Pkt{Type: TPubRec, ID: id}}}
 		lastOp = 2000
 	}
+	if (prop == "C18" || prop == "C01") && r.chance(0.2) {
+		// the usual `defer cancel()` of the context a request was made with: it
+		// ends some time after Publish / Subscribe / Unsubscribe returned, while
+		// the request is still on its way
+		n := len(sc.Ops)
+		for i := 1; i < n; i++ {
+			if k := sc.Ops[i].Kind; (k == "publish" || k == "subscribe" || k == "unsubscribe") && r.chance(0.5) {
+				sc.Ops = append(sc.Ops, Op{AtUs: sc.Ops[i].AtUs + r.between(1, 1500), Actor: -1, Kind: "cancel", Target: i, Token: "late"})
+			}
+		}
+	}
 	if prop == "C08" && r.chance(0.06) {
 		// aimed: the re-subscription requested for connection 2 (session lost) is
 		// still waiting behind a parked task when connection 2 dies and connection
